@@ -216,6 +216,25 @@ func (g *vfGen) genDets() {
 }
 
 func (g *vfGen) genC07() {
+	// long texts: a single binary byte far beyond the default limit, examined with no limit or a larger one
+	for k := 0; k < g.pick(24, 400); k++ {
+		n := 3000 + g.rng.Intn(6000)
+		txt := g.textBytes(n)
+		for len(txt) < n {
+			txt = append(txt, g.textBytes(n-len(txt))...)
+		}
+		g.emit(vfOp("walk", txt, 0))
+		pos := 3072 + g.rng.Intn(len(txt)-3072)
+		if k%5 == 0 {
+			pos = 3072 + k%3
+		}
+		bad := []byte{0x00, 0x01, 0x08, 0x0B, 0x0E, 0x1A, 0x1C, 0x1F, 0x07, 0x1B, 0x7F}[g.rng.Intn(11)]
+		c := append([]byte{}, txt...)
+		c[pos] = bad
+		for _, lim := range []int{0, len(c) + 1, pos + 1, pos, 8192, 3072} {
+			g.emit(vfOp("walk", c, lim))
+		}
+	}
 	carriers := [][]byte{[]byte(""), []byte("a"), []byte("hello, world\n"), []byte("line one\r\nline two\r\n\ttabbed\x0c"), g.textBytes(40)}
 	boms := [][]byte{nil, {0xEF, 0xBB, 0xBF}, {0xFE, 0xFF}, {0xFF, 0xFE}, {0, 0, 0xFE, 0xFF}, {0xFF, 0xFE, 0, 0}, {0xEF, 0xBB}, {0xFE}}
 	for _, car := range carriers {
